@@ -98,6 +98,7 @@ pub fn main(args: &[String]) {
             "probe-return-nesting" => ("Lua51", format!("{}return 1\n{}", "return f(function()\n".repeat(12), "end)\n".repeat(12))),
             "probe-foreign-operator" => ("Luau", "x = true | y\n".to_string()),
             "probe-silent-recovery" => ("Luau", "local x = { 1, [foo] = if a then b else".to_string()),
+            "probe-type-lexer-error" => ("Luau", "local x = b :: n\\".to_string()),
             _ => panic!("unknown probe"),
         };
         let words = if syn == "Luau" { vec!["syntax=Luau".to_string()] } else { default };
